@@ -180,6 +180,7 @@ func replayGraph(hist []action) (key string, enabled []action, fail *gfail) {
 	v := hsms.VerifNewSupervisor()
 	r := &refModel{A: hsms.NotConnectedState, lastNotify: hsms.NotConnectedState, traj: []hsms.ConnState{hsms.NotConnectedState}}
 	var log []string
+	var allNotes [][2]hsms.ConnState // every notification of this run, in order (handlers keep up)
 	bad := func(k, f string, a ...any) {
 		if fail == nil {
 			fail = &gfail{k, fmt.Sprintf(f, a...) + "; history: " + strings.Join(log, " ; ")}
@@ -275,6 +276,7 @@ func replayGraph(hist []action) (key string, enabled []action, fail *gfail) {
 				"after %s State()=%v but the reference (a change takes effect exactly when its cause does, never undone or replayed by later processing of an earlier event; no stale T7) says %v", desc, got, r.A)
 		}
 		for _, n := range v.Notifications() {
+			allNotes = append(allNotes, n)
 			if n[0] == n[1] {
 				bad("graph:notify-self", "notification %v->%v is a self-transition", n[0], n[1])
 			}
@@ -308,6 +310,16 @@ func replayGraph(hist []action) (key string, enabled []action, fail *gfail) {
 			return "", nil, fail
 		}
 	}
+	// the same history with a stalled handler (nothing reads the notifications until the end)
+	for _, capN := range stalledCaps {
+		if len(allNotes) <= capN {
+			continue // the buffer never fills: the run is the one just checked
+		}
+		if k, d := stalledRun(hist, capN, allNotes, len(v.Queue) == 0); k != "" {
+			bad(k, "%s", d)
+			return "", nil, fail
+		}
+	}
 	// canonical key: implementation state + reference state (merging is sound only if both agree)
 	qs := make([]string, len(v.Queue))
 	for i, e := range v.Queue {
@@ -327,6 +339,95 @@ func replayGraph(hist []action) (key string, enabled []action, fail *gfail) {
 		}
 	}
 	return key, enabled, nil
+}
+
+// stalledCaps: notification buffer sizes of the stalled-handler runs (the library's is 16).
+var stalledCaps = []int{1, 2}
+
+// stalledRun replays hist on a fresh supervisor whose notification buffer holds capN entries and
+// is not read before the end (a handler that does not return). want is what a handler that keeps
+// up received. The library may coalesce, and must say so: what is finally delivered is an in-order
+// subsequence of want without self-transitions, it ends with want's last notification (so that the
+// last next state is State() once the queue is empty), delivered + reported-dropped == len(want),
+// and consecutive notifications chain unless a drop was reported.
+func stalledRun(hist []action, capN int, want [][2]hsms.ConnState, queueEmpty bool) (string, string) {
+	v := hsms.VerifNewSupervisorNotifyCap(capN)
+	commit := func(a action) {
+		switch a {
+		case aCC:
+			v.CommitConnected()
+		case aCS:
+			v.CommitSelected()
+		default:
+			v.CommitSelectLost()
+		}
+	}
+	for _, a := range hist {
+		switch a {
+		case aCC, aCS, aCSL:
+			commit(a)
+		case aDisc:
+			v.Inject(hsms.VerifEvDisconnect)
+		case aT7:
+			v.Inject(hsms.VerifEvT7Timeout)
+		case aClose:
+			v.RequestClose()
+		}
+		if a >= aStep {
+			var hc []action
+			switch a {
+			case aStepCS:
+				hc = []action{aCS}
+			case aStepCSL:
+				hc = []action{aCSL}
+			case aStepCC:
+				hc = []action{aCC}
+			case aStepCSCSL:
+				hc = []action{aCS, aCSL}
+			case aStepCSLCS:
+				hc = []action{aCSL, aCS}
+			}
+			var hook func()
+			if len(hc) > 0 {
+				hook = func() {
+					for _, x := range hc {
+						commit(x)
+					}
+				}
+			}
+			if _, ok := v.StepNext(hook); !ok {
+				return "harness", "stalled run: queue mirror out of step"
+			}
+		}
+	}
+	got, dropped := v.Notifications(), v.Dropped()
+	where := fmt.Sprintf("stalled handler, notification buffer %d, history %v: a handler that keeps up receives %v, the stalled one finally %v, %d reported as coalesced", capN, histNames(hist), want, got, dropped)
+	if int(dropped)+len(got) != len(want) {
+		return "graph:stalled:count", where + ": delivered + reported-coalesced differs from the number of transitions"
+	}
+	j := 0
+	for i, n := range got {
+		if n[0] == n[1] {
+			return "graph:stalled:self", where + ": a self-transition is delivered"
+		}
+		for j < len(want) && want[j] != n {
+			j++
+		}
+		if j == len(want) {
+			return "graph:stalled:order", where + fmt.Sprintf(": notification %d is not (in order) one of those a handler that keeps up receives", i)
+		}
+		j++
+		if i > 0 && got[i-1][1] != n[0] && dropped == 0 {
+			return "graph:stalled:chain", where + ": the chain is broken although no coalescing was reported"
+		}
+	}
+	if len(got) == 0 || got[len(got)-1] != want[len(want)-1] {
+		return "graph:stalled:last-lost", where + ": the most recent transition is not the last one delivered"
+	}
+	if queueEmpty && got[len(got)-1][1] != v.State() {
+		return "graph:stalled:last-state", where + fmt.Sprintf(": the last delivered next state differs from State()=%v", v.State())
+	}
+	return "", ""
 }
 
 func boolInt(b bool) int {
